@@ -51,6 +51,12 @@ def cancelling_parents(g: gen.Gen, bad) -> list:
     c = wire.cls(bad)
     out = [X.Minus(bad, bad), X.Divide(bad, bad), X.NthRoot(X.NthPower(bad, 2), 2), X.NthRoot(X.NthPower(bad, 3), 3),
            X.Negation(X.Negation(bad)), X.Multiply(bad, X.Reciprocal(bad))]
+    # the same pairs as *adjacent operands of an n-ary node*, the very same object on both sides, in both orders, alone,
+    # after a leading operand and before a trailing one (an n-ary evaluation that pairs off `-u, u` or `1/u, u`)
+    for K, W in ((X.Add, X.Negation), (X.Multiply, X.Reciprocal), (X.Add, X.Reciprocal), (X.Multiply, X.Negation), (X.Add, lambda t: t)):
+        for pair in ((W(bad), bad), (bad, W(bad))):
+            out += [K(*pair), K(X.Constant(1), *pair), K(*pair, X.Constant(2.0)), K(g.expr(0), *pair, g.expr(0))]
+            out.append(pair[0] + pair[1] if K is X.Add else pair[0] * pair[1])
     if c == "NthRoot":
         n = bad._parameter
         out += [X.NthPower(bad, n), X.NthPower(bad, 2 * n), X.Multiply(*([bad] * min(n, 4))),
